@@ -1,8 +1,9 @@
 (** C11 -- ClientHello and transport parameters on the wire are exactly what the spec says.
     Only statements live here; each is closed by [exact] of a lemma proved in coq/USpec. *)
-From Coq Require Import List ZArith Bool Permutation.
+From Coq Require Import List ZArith Bool Permutation Lia.
+From V Require Import UDial.Model UDial.Proofs.   (* C02's model of the dial: spec_state, run, edits, wf_spec *)
 From V Require Import Gen.Params Lib.Hex Wire.Varint USpec.Model USpec.Proofs USpec.ProofsShuffle
-  USpec.ProofsWire USpec.ProofsFp.
+  USpec.ProofsWire USpec.ProofsFp USpec.ProofsDial.   (* [dial] below is USpec.Model.dial *)
 Import ListNotations.
 Open Scope Z_scope.
 
@@ -39,6 +40,28 @@ Theorem C11_shuffle_draw_count : forall i,
 Proof. exact (fun i => conj (all_draws_complete i) (all_draws_length i)). Qed.
 Print Assumptions C11_shuffle_draw_count.
 
+(** Round 3.  Every order is reachable -- the identity explicitly, by drawing j = i at every
+    step -- which is what distinguishes rand.Shuffle's loop from Sattolo's variant (draws from
+    [0, i-1]): that one never leaves a duplicate-free list of two or more elements in place.
+    (The correspondence compares the exact order ShuffleQUICTransportParams produces with the
+    model's under the recorded draws, so an implementation drawing from the smaller range is
+    not the model.) *)
+Theorem C11_shuffle_reaches_identity : forall (l : list param),
+  admissible (length l - 1) (ident_draws (length l - 1)) /\
+  shuffle l (ident_draws (length l - 1)) = l.
+Proof. exact (@shuffle_reaches_identity param). Qed.
+Print Assumptions C11_shuffle_reaches_identity.
+
+Theorem C11_shuffle_reaches_every_order : forall (l p : list param),
+  Permutation l p -> exists js, admissible (length l - 1) js /\ shuffle l js = p.
+Proof. exact (@shuffle_surjective param). Qed.
+Print Assumptions C11_shuffle_reaches_every_order.
+
+Theorem C11_sattolo_never_identity : forall (l : list param) js,
+  NoDup l -> (2 <= length l)%nat -> sattolo_admissible (length l - 1) js -> shuffle l js <> l.
+Proof. exact (@sattolo_never_identity param). Qed.
+Print Assumptions C11_sattolo_never_identity.
+
 (** (b) What a dial hands to uTLS, and what a reader of the marshalled extension gets back:
     exactly the suppressed list -- in spec order, or permuted by the draws -- with the same
     ids (GREASE included) and the same values, an empty typed initial_source_connection_id
@@ -54,6 +77,60 @@ Theorem C11_wire_is_spec : forall sup rnd js scid ps v ps' ov,
   (forallb (fun p => negb (needs_fill p)) ps = true -> ps' = dial_list sup rnd js ps).
 Proof. exact wire_is_spec. Qed.
 Print Assumptions C11_wire_is_spec.
+
+(** Round 3, clause (b) end to end: any history of dials of ONE spec value (C02's model
+    [UDial.Model.run] of the repaired newUClientConnection: per-dial copy, suppress, optional
+    shuffle, PopulateFromUQUIC, uTLS marshals the connection's own list), with the caller's
+    edits of the suppression list and the randomize flag in between.  A reader of extension 57
+    of the k-th dial finds [wire_list]: the spec's list as written, minus the currently
+    suppressed ids, in spec order or permuted by THIS dial's draws, every parameter with its
+    own id and value, an empty initial_source_connection_id carrying this dial's source
+    connection ID. *)
+Theorem C11_dial_k_wire : forall st ops1 scid o ops2 st' views,
+  wf_spec st -> zlen scid <= maxVarInt8 ->
+  run st (ops1 ++ ODial scid o :: ops2) = Some (st', views) ->
+  let cur := edits st ops1 in
+  exists w,
+    nth_error views (count_dials ops1) = Some (scid, w) /\
+    parse (wExt w) = Some (wire_list (sSup cur) (sRnd cur) (oJs o) scid (sParams st)) /\
+    dial_wire_bytes cur (oJs o) scid = Some (wExt w) /\
+    (if sRnd cur
+     then Permutation (suppress (sSup cur) (sParams st)) (dial_list (sSup cur) (sRnd cur) (oJs o) (sParams st))
+     else dial_list (sSup cur) (sRnd cur) (oJs o) (sParams st) = suppress (sSup cur) (sParams st)).
+Proof. exact dial_k_wire. Qed.
+Print Assumptions C11_dial_k_wire.
+
+(** what [wire_list] is: the kept list with the source connection ID filled in, permuted or not *)
+Theorem C11_wire_list_content : forall sup rnd js scid ps,
+  Permutation (wire_list sup rnd js scid ps) (map idval (map (fill scid) (suppress sup ps))) /\
+  (rnd = false -> wire_list sup rnd js scid ps = map idval (map (fill scid) (suppress sup ps))) /\
+  map fst (wire_list sup rnd js scid ps) = map pid (dial_list sup rnd js ps).
+Proof. exact wire_list_content. Qed.
+Print Assumptions C11_wire_list_content.
+
+(** fresh per dial: the bytes of a dial depend on the caller's settings at that point, that
+    dial's own draws and its own source connection ID -- not on any other dial of the history *)
+Theorem C11_dial_k_independent : forall st opsA scid oA opsA' stA viewsA opsB oB opsB' stB viewsB,
+  wf_spec st -> zlen scid <= maxVarInt8 ->
+  run st (opsA ++ ODial scid oA :: opsA') = Some (stA, viewsA) ->
+  run st (opsB ++ ODial scid oB :: opsB') = Some (stB, viewsB) ->
+  sSup (edits st opsA) = sSup (edits st opsB) -> sRnd (edits st opsA) = sRnd (edits st opsB) ->
+  oJs oA = oJs oB ->
+  exists wA wB,
+    nth_error viewsA (count_dials opsA) = Some (scid, wA) /\
+    nth_error viewsB (count_dials opsB) = Some (scid, wB) /\
+    wExt wA = wExt wB.
+Proof. exact dial_k_independent. Qed.
+Print Assumptions C11_dial_k_independent.
+
+(** ... and every order of the kept list is available to every dial, whatever came before *)
+Theorem C11_dial_k_any_order : forall st ops1 scid target,
+  wf_spec st -> sRnd (edits st ops1) = true ->
+  Permutation (suppress (sSup (edits st ops1)) (sParams st)) target ->
+  exists js, admissible (length target - 1) js /\
+             wire_list (sSup (edits st ops1)) true js scid (sParams st) = map idval (map (fill scid) target).
+Proof. exact dial_k_any_order. Qed.
+Print Assumptions C11_dial_k_any_order.
 
 (** the reader inverts the marshaller on every encodable list *)
 Theorem C11_parse_marshal : forall ps, Forall wfp ps -> parse (marshal ps) = Some (map idval ps).
@@ -177,3 +254,29 @@ Example C11_ex_parrot_table : (* the table is not empty and holds the repaired C
   In (1, 10) uspec_parrot_ping_ranges /\ draw_ok 1 10 (Z.of_nat 1) = true /\ draw_ok 1 10 (Z.of_nat 9) = true.
 Proof. repeat split; cbn; auto. Qed.
 Print Assumptions C11_ex_parrot_table.
+
+Example C11_ex_history : (* three dials of one spec value, an edit in between: hypotheses of
+                            C11_dial_k_wire hold, the run succeeds, orders differ per dial *)
+  let st := Spec [P 4 [128; 240; 0; 0] true; P 15 [] true; P 58 [7; 7] false; P 1 [64; 100] true] None [] [] [] true in
+  wf_spec st /\
+  exists st' v1 v2 v3,
+    run st [ODial [1; 2] (Oracle [3; 2; 1]%nat [] []); ODial [3] (Oracle [0; 0; 0]%nat [] []);
+            OSetSup [27]; ODial [4; 5] (Oracle [1; 0]%nat [] [])] = Some (st', [v1; v2; v3]) /\
+    st' = set_sup st [27] /\
+    parse (wExt (snd v1)) = Some [(4, [128; 240; 0; 0]); (15, [1; 2]); (58, [7; 7]); (1, [64; 100])] /\
+    parse (wExt (snd v2)) = Some [(15, [3]); (58, [7; 7]); (1, [64; 100]); (4, [128; 240; 0; 0])] /\
+    parse (wExt (snd v3)) = Some [(1, [64; 100]); (4, [128; 240; 0; 0]); (15, [4; 5])].
+Proof.
+  split.
+  - split.
+    + repeat constructor; cbn; unfold maxVarInt8; lia.
+    + repeat (apply Forall_cons; [unfold leaves_scid, tpid_initialSourceConnectionID; cbn; intros H; try discriminate H; auto|]). apply Forall_nil.
+  - do 4 eexists. split; [vm_compute; reflexivity|]. repeat split; vm_compute; reflexivity.
+Qed.
+Print Assumptions C11_ex_history.
+
+Example C11_ex_sattolo : (* Sattolo-admissible draws exist and move every such list; the identity draws are not among them *)
+  sattolo_admissible 3 [0; 1; 0]%nat /\ shuffle [10; 20; 30; 40] [0; 1; 0]%nat = [30; 40; 20; 10] /\
+  ~ sattolo_admissible 3 (ident_draws 3) /\ shuffle [10; 20; 30; 40] (ident_draws 3) = [10; 20; 30; 40].
+Proof. split; [cbn; lia|]. split; [reflexivity|]. split; [cbn; lia | reflexivity]. Qed.
+Print Assumptions C11_ex_sattolo.
